@@ -114,6 +114,29 @@ func runEmit(b *runner.Batch, idx int) {
 	for i, k := range ir {
 		irAcc[i] = world.Hash160Of(k)
 	}
+	// an Alphabet contract whose index lies beyond the committee (the committee shrank, or it was deployed for a seat that
+	// does not exist yet): it has no node of its own, nobody can make it emit (seeded change C19-8: the node looked up
+	// modulo the committee size)
+	for extra := 0; extra < 2; extra++ {
+		snd := world.Single(world.Key(b.Seed, b.Index, "alphadeployer", n+extra))
+		w.FundGAS(snd.ScriptHash(), 100*gasUnit)
+		d, err := w.DeployFrom(snd, fmt.Sprintf("alphabet%d", n+extra), b.Set["alphabet"], []any{false, util.Uint160{5}, proxy, fmt.Sprintf("letter%d", n+extra), int64(n + extra), int64(n + 2)})
+		if err != nil {
+			b.Inconclusive("deploy alphabet: " + err.Error())
+			return
+		}
+		w.Invoke([]world.SignerSpec{world.G(user)}, w.GAS, "transfer", user.ScriptHash(), d.Hash, int64(1_000_000), nil)
+		b.Tx(1)
+		for m := 0; m < n; m++ {
+			tr := w.Invoke([]world.SignerSpec{world.G(w.Members[m])}, d.Hash, "emit")
+			b.Tx(1)
+			if tr.Halted() || len(gasMoves(w, tr, w.GAS)) > 0 {
+				b.Violation(fmt.Sprintf("emit of the Alphabet contract with index %d was not refused to committee member %d of %d (no committee member has that index)", n+extra, m, n), w.RenderResult(tr, true))
+			}
+			b.Eval(fmt.Sprintf("emit|seatless-contract|member%d|%s", m, tr.State), true)
+		}
+		b.Hit("emit-refused:contract-index-beyond-the-committee")
+	}
 	rot := 0
 	for e := 0; e < nemits && b.NViolations() == 0; e++ {
 		ci := r.IntN(n)
@@ -312,7 +335,7 @@ func init() {
 		Batches:     c19Batches, Helpers: []string{"token"}, Chunk: 4,
 		Floors: []string{"emit-right-after-inner-ring-rotation", "emit-with-committee-larger-than-the-validator-set", "withdraw-by-a-user-who-cannot-pay-every-receiver", "token-acceptance-null-sender:alphabet", "refused-neofs:foreign-mint", "deposit-accepted:len20-marker-prefix", "deposit-accepted:nil", "deposit-accepted:len0", "deposit-accepted:len20", "deposit-refused:amount", "deposit-refused:data-length", "deposit-ignored-by-marker", "withdraw-ok:notary=true", "withdraw-ok:notary=false", "withdraw-refused",
 			"cheque-paid", "cheque-refused", "candidate-added", "candidate-removed", "fee-setting-changed", "refused-neofs:neo", "refused-neofs:foreign-token", "refused-neofs:direct-call", "refused-processing:neo", "refused-processing:foreign-token",
-			"emit-ok:ir1", "emit-ok:ir2", "emit-ok:ir3", "emit-ok:ir4", "emit-ok:ir5", "emit-ok:ir6", "emit-ok:ir7", "emit-ok:g<=3", "emit-nothing-to-emit", "emit-with-neo-claim", "emit-refused:stranger", "emit-refused:other-node", "token-acceptance:alphabet", "token-acceptance:proxy"},
+			"emit-ok:ir1", "emit-ok:ir2", "emit-ok:ir3", "emit-ok:ir4", "emit-ok:ir5", "emit-ok:ir6", "emit-ok:ir7", "emit-ok:g<=3", "emit-nothing-to-emit", "emit-with-neo-claim", "emit-refused:stranger", "emit-refused:other-node", "emit-refused:contract-index-beyond-the-committee", "token-acceptance:alphabet", "token-acceptance:proxy"},
 		Run: runC19,
 	})
 }
